@@ -432,11 +432,16 @@ func (r *Runner) contractCall(st *State, f *Frame, sp *FuncSpec, callee *ssa.Fun
 	if prev, had := st.lastCall[short]; had {
 		st.lastCall["prev:"+short] = prev // the call before the most recent one
 	}
-	st.lastCall[short] = callRec{args: args, rets: results}
+	rec := callRec{args: args, rets: results}
+	if r.wantPostSnap {
+		rec.post = r.shadow(st) // state right after the call, for mapsamesince()
+	}
+	st.lastCall[short] = rec
 	st.ghost["calls:"+short] = st.define("calls", Add(r.callsTerm(st, short), One))
 }
 
 type callRec struct {
+	post  *State // snapshot right after the call (only when the contract under verification uses mapsamesince)
 	args  []Val
 	rets  []Val
 	valid Term // Bool: the record describes a call that happened on this path (zero value = true)
@@ -566,12 +571,14 @@ func (r *Runner) finish(st *State, f *Frame, rv []Val, pos token.Pos) {
 	env.old = r.entryShadow(st, f)
 	if len(st.frames) == 1 {
 		r.curRets = rv
+		r.atReturn = true
 	}
 	for _, c := range sp.Ensures {
 		g := env.EvalBool(c.E, st)
 		r.oblige(st, "post", c.Label, g, pos)
 	}
 	r.curRets = nil
+	r.atReturn = false
 	// nogo[label]: no goroutine was started on this path (the work is done in the caller's goroutine)
 	if sp.NoGo != "" {
 		g := True
